@@ -171,6 +171,27 @@ func vrtJNum(name string, forms int) json.Number {
 	return json.Number(s)
 }
 
+// vrtJNumFrom spells the integer k as a JSON number in the given form.
+func vrtJNumFrom(k int, form int) json.Number {
+	switch form {
+	case nfDot:
+		return json.Number(strconv.Itoa(k) + ".0")
+	case nfExp:
+		return json.Number(strconv.Itoa(k) + "e0")
+	case nfFrac:
+		neg := k < 0
+		if neg {
+			k = -k
+		}
+		s := strconv.Itoa(k/10) + "." + strconv.Itoa(k%10)
+		if neg {
+			s = "-" + s
+		}
+		return json.Number(s)
+	}
+	return json.Number(strconv.Itoa(k))
+}
+
 func vrtSpec(a, o, s int, keys string, strMode int, numForms int, flags int) {}
 func vrtNested(maxLen int)                                                   {}
 func vrtNumRange(lo, hi int)                                                 {}
